@@ -47,9 +47,6 @@ func genColType(rng *rand.Rand) ColType {
 		return ColType{Kind: "set", Key: k, Min: 0, Max: -1}
 	default:
 		v := atomicTypes[rng.Intn(len(atomicTypes))]
-		for k == "real" || k == "boolean" { // map keys of real/bool cannot be JSON-cloned (D30): separate stream
-			k = atomicTypes[rng.Intn(len(atomicTypes))]
-		}
 		return ColType{Kind: "map", Key: k, Val: v, Min: 0, Max: -1}
 	}
 }
